@@ -229,6 +229,21 @@ func execC17(t *testing.T, raw json.RawMessage, res *Result) {
 		}
 		bad := corrupt(stream, p.Corr)
 		guarded(res, "decoding a corrupted "+p.Stream.Kind+" stream", len(bad), func() error { decode(bytes.NewReader(bad)); return nil })
+		if p.Stream.Kind == "profile" {
+			// a profile that declares fewer fields than this version knows and uses a field index beyond its own list
+			for nf := 0; nf <= 3; nf++ {
+				for idx := 1; idx <= 13; idx++ {
+					hand := handProfile(nf, idx)
+					if !guarded(res, fmt.Sprintf("decoding a table profile declaring %d fields and using field index %d", nf, idx), len(hand), func() error {
+						tp := &objects.TableProfile{}
+						_, err := tp.ReadFrom(bytes.NewReader(hand))
+						return err
+					}) {
+						return
+					}
+				}
+			}
+		}
 		if p.Stream.Kind == "pktline" {
 			guarded(res, "ReadPktLine", len(bad), func() error {
 				ps := encoding.NewParser(bytes.NewReader(bad))
@@ -418,4 +433,28 @@ func execC17Packfile(t *testing.T, p *C17Plan, src *Store, br *BuiltRepo, res *R
 	} else {
 		res.probe("packfile_accepted", 1)
 	}
+}
+
+// handProfile builds a table profile stream by hand: nf declared field names,
+// one column whose first field index is idx.
+func handProfile(nf, idx int) []byte {
+	var b bytes.Buffer
+	u32 := func(v uint32) []byte { x := make([]byte, 4); binary.BigEndian.PutUint32(x, v); return x }
+	u16 := func(v uint16) []byte { x := make([]byte, 2); binary.BigEndian.PutUint16(x, v); return x }
+	names := []string{"name", "naCount", "min"}[:nf]
+	b.WriteString("version ")
+	b.Write(u32(0))
+	b.WriteString("\nfields ")
+	b.Write(objects.NewStrListEncoder(true).Encode(names))
+	b.WriteString("\nrowsCount ")
+	b.Write(u32(1))
+	b.WriteString("\ncolsCount ")
+	b.Write(u32(1))
+	b.WriteString("\ncolumns ")
+	b.Write(u16(uint16(idx)))
+	b.Write(u16(1))
+	b.WriteString("x")
+	b.Write(u16(0))
+	b.WriteString("\n")
+	return b.Bytes()
 }
